@@ -2567,22 +2567,21 @@ func (r Stack) Defrag(max ...int) Stack {
 
 			r.stack.defrag(m) // defrag the stack itself
 
-			// If the receiver instance is judged as nesting, we'll
-			// recurse through stack, and defrag any other suitable
+			// Recurse through the stack, and defrag any other suitable
 			// candidates for the operation. Targets are any Stack
 			// or Condition instances, OR their aliased equivalents.
-			if r.IsNesting() {
-				for i := 0; i < r.Len(); i++ {
-					slice, _ := r.Index(i)
-					if sub, ok := stackTypeAliasConverter(slice); ok {
-						// Instance is Stack/Stack alias
+			// Note that IsNesting is not consulted here, as it does
+			// not see Stack instances held by Condition instances.
+			for i := 0; i < r.Len(); i++ {
+				slice, _ := r.Index(i)
+				if sub, ok := stackTypeAliasConverter(slice); ok {
+					// Instance is Stack/Stack alias
+					sub.Defrag(m)
+				} else if cub, ok := conditionTypeAliasConverter(slice); ok {
+					// Instance is Condition/Condition alias
+					if sub, ok := stackTypeAliasConverter(cub.Expression()); ok {
+						// Condition expression contains a Stack/Stack alias
 						sub.Defrag(m)
-					} else if cub, ok := conditionTypeAliasConverter(slice); ok {
-						// Instance is Condition/Condition alias
-						if sub, ok := stackTypeAliasConverter(cub.Expression()); ok {
-							// Condition expression contains a Stack/Stack alias
-							sub.Defrag(m)
-						}
 					}
 				}
 			}
